@@ -303,7 +303,11 @@ func c05GenFuncs(r *rand.Rand) c05Case {
 		case 2:
 			calls = append(calls, c05FCall{Fn: "toJson", V: g.fvalue(0)})
 		case 3:
-			calls = append(calls, c05FCall{Fn: "toToml", V: g.fvalue(0)})
+			v := g.fvalue(0)
+			if g.chance(3) { // what the TOML encoder rejects: an array with a nil element
+				v = map[string]any{"a": []any{g.fvalue(2), nil}, "b": g.fvalue(1)}
+			}
+			calls = append(calls, c05FCall{Fn: "toToml", V: v})
 		case 4:
 			calls = append(calls, c05FCall{Fn: "fromYaml", S: g.ftext(g.pick("yaml", "yaml", "json"))})
 		case 5:
@@ -325,6 +329,7 @@ func c05FuncsCorpus() []any {
 		{Fn: "toYamlPretty", V: map[string]any{"b": int64(1), "a": []any{"x", map[string]any{"k": "v"}}}},
 		{Fn: "toJson", V: map[string]any{"a": "<&>"}}, {Fn: "toJson", V: "@inf@"}, {Fn: "toJson", V: nil},
 		{Fn: "toToml", V: map[string]any{"a": int64(1)}}, {Fn: "toToml", V: "x"}, {Fn: "toToml", V: nil}, {Fn: "toToml", V: map[string]any{"a": []any{int64(1), "x"}}},
+		{Fn: "toToml", V: map[string]any{"a": []any{nil}}}, {Fn: "toToml", V: []any{int64(1), nil}},
 		{Fn: "fromYaml", S: ""}, {Fn: "fromYaml", S: "null"}, {Fn: "fromYaml", S: "[1]"}, {Fn: "fromYaml", S: "a: 1\nb: ["}, {Fn: "fromYaml", S: "a: 1"}, {Fn: "fromYaml", S: "Error: mine"},
 		{Fn: "fromYamlArray", S: ""}, {Fn: "fromYamlArray", S: "a: 1"}, {Fn: "fromYamlArray", S: "[1,2]"}, {Fn: "fromYamlArray", S: "null"},
 		{Fn: "fromJson", S: ""}, {Fn: "fromJson", S: "null"}, {Fn: "fromJson", S: "{\"a\":1,\"b\":}"}, {Fn: "fromJson", S: "[1]"}, {Fn: "fromJson", S: "{\"a\":1}"},
